@@ -75,33 +75,13 @@ Proof.
     now rewrite Nat.mod_add by lia.
 Qed.
 
-(* ---------------------------------------------------------------- plain commands *)
-Lemma mapM_plain : forall T t ps, forallb plain_param ps = true ->
-  mapM (subst_impl T t) ps = Some (map (subst_spec T t) ps).
-Proof.
-  induction ps; simpl; intros H; [reflexivity|].
-  apply andb_true_iff in H. destruct H as [Ha Hps]. rewrite (IHps Hps).
-  destruct a; simpl in *; try reflexivity. discriminate.
-Qed.
-
-Lemma apply_op_plain : forall M T c (modes : list M) t, plain_cmd c = true ->
-  apply_op T c modes t = Some (spec_op T c modes t).
-Proof.
-  intros M T c modes t H. unfold plain_cmd in H.
-  repeat (apply andb_true_iff in H; destruct H as [H ?]).
-  unfold apply_op, spec_op. rewrite (mapM_plain _ _ _ H).
-  apply negb_true_iff in H1. apply negb_true_iff in H2. rewrite H0, H1, H2. reflexivity.
-Qed.
-
-Definition all_plain (cs : list rcmd) : Prop := Forall (fun c => plain_cmd c = true) cs.
-
-Lemma run_cmds_shift_plain : forall T t q cs prev, all_plain cs ->
+(* ---------------------------------------------------------------- one pass over the rolled circuit *)
+Lemma run_cmds_shift : forall T t q cs prev,
   run_cmds false T t q cs prev
   = Some (map (fun c => spec_op T c (get_modes c q) t) cs, map (fun c => list_min (get_modes c q)) cs).
 Proof.
-  induction cs; intros prev H; simpl; [reflexivity|].
-  inversion H; subst. rewrite apply_op_plain by assumption.
-  rewrite (IHcs (tl prev)) by assumption. reflexivity.
+  induction cs; intros prev; simpl; [reflexivity|].
+  unfold apply_op. rewrite (IHcs (tl prev)). reflexivity.
 Qed.
 
 (* ---------------------------------------------------------------- default shift: closed form of q *)
@@ -171,7 +151,6 @@ Section Default.
   Variable N : list nat.
   Variable T : nat.
   Variable cs : list rcmd.
-  Hypothesis Hplain : all_plain cs.
   Hypothesis Hregs : regs_ok N cs.
 
   Definition bin_out (i g : nat) : list (ucmd nat) :=
@@ -184,7 +163,7 @@ Section Default.
     induction k; intros i g prev.
     - simpl. now rewrite Nat.add_0_r.
     - cbv beta iota delta [run_bins]. fold run_bins.
-      rewrite run_cmds_shift_plain by exact Hplain.
+      rewrite run_cmds_shift.
       unfold shift_step. rewrite shift_bands_qform. rewrite IHk.
       rewrite flat_map_seq_S. rewrite !Nat.add_0_r.
       replace (S g + k) with (g + S k) by lia. f_equal. f_equal. f_equal.
@@ -234,7 +213,6 @@ Section IntShift.
   Variable n s T : nat.
   Variable cs : list rcmd.
   Hypothesis Hs : s <= n.
-  Hypothesis Hplain : all_plain cs.
   Hypothesis Hregs : Forall (fun c => Forall (fun r => r < n) (r_regs c)) cs.
 
   Definition qint (g : nat) : list nat := map (fun o => 0 + (o + s * g) mod n) (seq 0 n).
@@ -262,7 +240,7 @@ Section IntShift.
     induction k; intros i g prev.
     - simpl. now rewrite Nat.add_0_r.
     - cbv beta iota delta [run_bins]. fold run_bins.
-      rewrite run_cmds_shift_plain by exact Hplain.
+      rewrite run_cmds_shift.
       unfold shift_step. unfold qint at 1. rewrite rotate_closed_form by exact Hs. fold (qint (S g)).
       rewrite IHk. rewrite flat_map_seq_S. rewrite !Nat.add_0_r.
       replace (S g + k) with (g + S k) by lia. f_equal. f_equal. f_equal.
@@ -315,19 +293,18 @@ Proof.
     etransitivity; [apply Nat.le_min_r|]. apply IH. exact H.
 Qed.
 
-Lemma run_cmds_space_plain : forall T t q cs prev, all_plain cs ->
+Lemma run_cmds_space : forall T t q cs prev,
   Forall2 (fun c p => Forall (fun m => p <= m) (get_modes c q)) cs prev ->
   run_cmds true T t q cs prev
   = Some (map (fun c => spec_op T c (get_modes c q) t) cs, map (fun c => list_min (get_modes c q)) cs).
 Proof.
-  induction cs; intros prev Hp H.
+  induction cs; intros prev H.
   - inversion H; subst. reflexivity.
   - inversion H as [|c0 y cs0 l' Hy Hrest]; subst. simpl.
-    inversion Hp as [|c1 cs1 Hpa Hpr]; subst.
     assert (E : existsb (fun m => m <? y) (get_modes a q) = false).
     { apply not_true_is_false. intros C. apply existsb_exists in C. destruct C as [m [Hm Hlt]].
       apply Nat.ltb_lt in Hlt. rewrite Forall_forall in Hy. specialize (Hy m Hm). lia. }
-    rewrite E. simpl. rewrite apply_op_plain by assumption.
+    rewrite E. simpl. unfold apply_op.
     rewrite (IHcs l') by assumption. reflexivity.
 Qed.
 
@@ -337,7 +314,6 @@ Section Space.
   Variable n T : nat.
   Variable cs : list rcmd.
   Hypothesis Hn : 0 < n.
-  Hypothesis Hplain : all_plain cs.
   Hypothesis Hregs : Forall (fun c => Forall (fun r => r < n) (r_regs c)) cs.
 
   Let L := n + (T - 1).
@@ -401,7 +377,7 @@ Section Space.
     induction k; intros g prev Hk Hinv.
     - simpl. now rewrite Nat.add_0_r.
     - cbv beta iota delta [run_bins]. fold run_bins.
-      rewrite run_cmds_space_plain; [|exact Hplain|apply inv_modes; [lia|exact Hinv]].
+      rewrite run_cmds_space; [|apply inv_modes; [lia|exact Hinv]].
       unfold shift_step.
       assert (HL : 1 <= L) by (unfold L; lia).
       replace (if true then shift_by (qs g) 1 else match sh with ShDefault => shift_bands N (qs g) | ShInt s => shift_by (qs g) s end)
@@ -470,43 +446,19 @@ Proof.
   pose proof (same_residue_gap _ _ _ Hn Hlt Hrho). lia.
 Qed.
 
-(* ---------------------------------------------------------------- what the faithful model refutes *)
+
+(* ---------------------------------------------------------------- refuted for the current code *)
 Definition ex_cs (dag sel : bool) (p : param) : list rcmd :=
   [ mkR 0 [PNum 0; PNum 1] [1] false false false true;
     mkR 1 [p; PNum 1] [0; 1] false dag false true;
     mkR 2 [PSym 1] [0] true false sel true ].
 
-(* a daggered gate: the unrolled circuit is not the image of the explicit loop *)
-Lemma dagger_refuted : exists cs, regs_ok [2] cs /\
-  unroll_program [2] ShDefault false 3 cs 1 (seq 0 2) <> Some (map (rename (rho [2])) (loop_program [2] 3 cs 1)).
-Proof.
-  exists (ex_cs true false (PSym 0)). split.
-  - repeat constructor.
-  - vm_compute. discriminate.
-Qed.
-
-Lemma select_refuted : exists cs, regs_ok [2] cs /\
-  unroll_program [2] ShDefault false 3 cs 1 (seq 0 2) <> Some (map (rename (rho [2])) (loop_program [2] 3 cs 1)).
-Proof.
-  exists (ex_cs false true (PSym 0)). split.
-  - repeat constructor.
-  - vm_compute. discriminate.
-Qed.
-
-(* a parameter that is an expression in p[0]: unrolling fails altogether *)
-Lemma expr_refuted : exists cs, regs_ok [2] cs /\ unroll_program [2] ShDefault false 3 cs 1 (seq 0 2) = None.
-Proof. exists (ex_cs false false (PExpr 0 0)). split; [repeat constructor|reflexivity]. Qed.
-
-(* an operation whose class cannot be rebuilt from op.p (Fouriergate) *)
-Lemma ctor_refuted : exists cs, regs_ok [2] cs /\ unroll_program [2] ShDefault false 3 cs 1 (seq 0 2) = None.
-Proof. exists [mkR 3 [PNum 0] [1] false false false false]. split; [repeat constructor|reflexivity]. Qed.
 
 (* space unrolling for two shots is not the explicit loop over 2*timebins pulses *)
-Lemma space_shots_refuted : exists cs, all_plain cs /\ Forall (fun c => Forall (fun r => r < 2) (r_regs c)) cs /\
+Lemma space_shots_refuted : exists cs, Forall (fun c => Forall (fun r => r < 2) (r_regs c)) cs /\
   unroll_program [2] ShDefault true 3 cs 2 (seq 0 (2 + (3 - 1))) <> Some (loop_program_int 1 3 cs 2).
 Proof.
-  exists (ex_cs false false (PSym 0)). split; [|split].
-  - repeat constructor.
+  exists (ex_cs false false (PSym 0)). split.
   - repeat constructor.
   - vm_compute. discriminate.
 Qed.
